@@ -2,6 +2,7 @@
 Shapes: I (one real transition from an arbitrary Inv03 state, streams of any length) + B (whole runs)."""
 import z3
 
+from ..values import toint
 from .. import loader, oracles
 from . import tok
 
@@ -10,18 +11,23 @@ BOUNDS = {"quick": dict(N=6, N_init=6), "thorough": dict(N=10, N_init=9)}
 
 def oblig(ctx):
     frames, toks, N = ctx["frames"], ctx["toks"], ctx["N"]
+    index = {id(f): i for i, f in enumerate(frames)}
     conds = {}
-    prev_e = -1
+    prev_e = None
     for k, (data, s, en) in enumerate(toks):
-        concrete = isinstance(s, int) and isinstance(en, int) and isinstance(data, list)
-        if not concrete:
-            conds[("shape", k)] = False
+        if not isinstance(data, list) or not data or any(id(f) not in index for f in data):
+            conds[("frames are frames of the stream", k)] = False
             continue
-        conds[("bounds", k)] = 0 <= s <= en < N
-        conds[("length", k)] = en - s + 1 == len(data)
-        conds[("frames", k)] = len(data) == len(frames[s:en + 1]) and all(a is b for a, b in zip(data, frames[s:en + 1]))
-        conds[("order", k)] = s > prev_e
-        prev_e = en
+        pos = [index[id(f)] for f in data]
+        # start/end may be symbolic expressions (e.g. computed from a symbolic parameter): compare as formulas
+        sv, ev = toint(s), toint(en)
+        conds[("frames", k)] = pos == list(range(pos[0], pos[0] + len(pos)))
+        conds[("start is the position of the first frame", k)] = sv == pos[0]
+        conds[("end is the position of the last frame", k)] = ev == pos[-1]
+        conds[("bounds", k)] = 0 <= pos[0] <= pos[-1] < N
+        if prev_e is not None:
+            conds[("order", k)] = pos[0] > prev_e
+        prev_e = pos[-1]
     return conds
 
 
